@@ -23,6 +23,9 @@ def fam(x):
         return 'date'
     if type(x) in (list, tuple, dict, set):
         return 'cont'
+    from pv.kit import values
+    if type(x) is values.Registered and values.REGISTERED[0]:
+        return 'registered'         # a user type whose equality has been registered with the Comparator
     return None
 
 
